@@ -624,7 +624,7 @@ class Corpus:
         self.queries.append((n, k, kind, [str(a) for a in args], note))
         return n
 
-    def add_hostile_twins(self, names, per_name=3, max_queries=400):
+    def add_hostile_twins(self, names, per_name=3, max_queries=120):
         """For each look-alike name (defs.HOSTILE) a few definitions of the corpus are repeated INSIDE a module that declares the
         look-alike next to the enum, with all their queries: same model item, same expected observations.  A generated path that
         stops being absolute (`::core::default::Default` -> `Default`) then resolves to the look-alike and the twin disagrees."""
@@ -644,26 +644,40 @@ class Corpus:
         for q in self.queries:
             qs_of.setdefault(q[1], []).append(q)
         added = 0
-        # which definitions get a twin: by FEATURE first (a look-alike matters only on the code path that mentions the name), then by position
+        # which definitions get a twin: one per FEATURE for every look-alike (a look-alike matters only on the code path that mentions the
+        # name: the Err of a custom parse error, the None of a disabled variant, the Default of a payload ...), then `per_name` by position
         def feat(k, what):
             it_ = self.defs[k]
             if what == "ci":
                 return any(m.kind == "aci" for m in it_.metas) or any(m.kind == "aci" and getattr(m, "b", True) for v in it_.variants for m in v.metas)
             if what == "default":
-                return any(v.has("default") or v.has("dw") or any(f.dws for f in v.fields) for v in it_.variants)
-            return any(m.kind in ("phf", "pety") for m in it_.metas) or any(v.has("disabled") or v.has("transparent") for v in it_.variants)
-        buckets = [[k for k in base if feat(k, w)] for w in ("ci", "default", "other")]
+                return any(v.has("default") for v in it_.variants)
+            if what == "default_with":
+                return any(v.has("dw") or any(f.dws for f in v.fields) for v in it_.variants)
+            if what == "disabled":
+                return any(v.has("disabled") for v in it_.variants)
+            if what == "transparent":
+                return any(v.has("transparent") for v in it_.variants)
+            if what == "custom-error":
+                return any(m.kind == "pety" for m in it_.metas)
+            if what == "phf":
+                return any(m.kind == "phf" for m in it_.metas)
+            return any(v.fields for v in it_.variants)
+        feats = ("ci", "default", "default_with", "disabled", "transparent", "custom-error", "phf", "fields")
+        buckets = {w: [k for k in base if feat(k, w)] for w in feats}
         for ni, name in enumerate(names):
             step = max(1, len(base) // per_name)
             chosen = []
+            for fi, w in enumerate(feats):
+                b = buckets[w]
+                if b:
+                    k = b[(ni * 3 + fi) % len(b)]
+                    if k not in chosen:
+                        chosen.append(k)
             for j in range(per_name):
                 k = base[(ni * 7 + j * step) % len(base)]
-                b = buckets[j % len(buckets)]
-                if b and not feat(k, ("ci", "default", "other")[j % len(buckets)]):
-                    k = b[(ni * 5 + j) % len(b)]
-                if k in chosen:
-                    k = base[(ni * 7 + j * step + 1) % len(base)]
-                chosen.append(k)
+                if k not in chosen:
+                    chosen.append(k)
             for k in chosen:
                 it = copy.deepcopy(self.defs[k])
                 it.hostile = [name]
